@@ -35,8 +35,10 @@ SYM = [
     ("def", "02", ""), ("def", "10", ""), ("ref", ["10", "02"]),  # numeric labels are ordered by value, not as strings ('02' < '3' < '10')
     ("def", "a", "n"), ("def", "3", ""),  # 'n': a duplicate definition nested in the body of the first one
     ("def", "2nd", ""), ("ref", ["2nd", "b"]),  # a label that merely STARTS with digits is a named (auto-numbered) label
+    ("refx", ["a"]), ("refx", ["b", "a"]),  # references inside directive content that the directive DISCARDS (figure with a list as caption): they are not references
+    ("reft", ["b"]), ("reft", ["a", "b"]),  # references in a directive TITLE (parsed by the mock inliner)
 ]
-SYM_SMALL = [0, 1, 2, 4, 6, 7, 8, 12, 13, 16]
+SYM_SMALL = [0, 1, 2, 4, 6, 7, 8, 12, 13, 16, 29]
 BULLETS = "-*+"
 
 
@@ -47,6 +49,10 @@ def text_of(seq):
             out.append(f"P{i} " + " ".join(f"[^{l}]" for l in s[1]))
         elif s[0] == "refd":
             out.append("```{note}\n" + f"P{i} " + " ".join(f"[^{l}]" for l in s[1]) + "\n```")
+        elif s[0] == "refx":
+            out.append("```{figure} img.png\n- X" + f"{i} " + " ".join(f"[^{l}]" for l in s[1]) + "\n```")
+        elif s[0] == "reft":
+            out.append("```{admonition} " + f"P{i} " + " ".join(f"[^{l}]" for l in s[1]) + "\nbody\n```")
         else:
             body = f"[^{s[1]}]: D{i}{s[1]}"
             if s[2] == "q":
@@ -70,7 +76,7 @@ def model(seq, sort):
                 defs.append((s[1], i))
                 if s[2] == "n":
                     dups += 1  # (the body of a dropped duplicate is not rendered: its nested duplicate is never met)
-    refs = [(l, i) for i, s in enumerate(seq) if s[0] in ("ref", "refd") for l in s[1]]
+    refs = [(l, i) for i, s in enumerate(seq) if s[0] in ("ref", "refd", "reft") for l in s[1]]
     manual = {l for l, _ in defs if l.isdigit()}
     autos = [l for l, _ in defs if not l.isdigit()]
     order = []
@@ -99,6 +105,10 @@ def model_structure(seq, sort, trans, num, defs):
             out.append(("paragraph",))
         elif s[0] == "refd":
             out.append(("note",))
+        elif s[0] == "refx":
+            out.append(("figure",))
+        elif s[0] == "reft":
+            out.append(("admonition",))
         elif s[2] == "q":
             out.append(("block_quote",))
         elif s[2] == "l":
@@ -203,10 +213,10 @@ def evaluate(seq, sort, trans, text, doc, warn, front_end):
             if any(onum[l] != l for l in num if l.isdigit()):
                 bad("numbering", f"numeric labels changed: {onum}", kind="numeric")
         # references: per paragraph in order
-        paras = {p.astext().split()[0]: p for p in doc.findall(nodes.paragraph) if p.astext().startswith("P")}
+        paras = {p.astext().split()[0]: p for p in doc.findall(lambda n: isinstance(n, (nodes.paragraph, nodes.title))) if p.astext().startswith("P")}
         backrefs = {l: [] for l in num}
         for i, s in enumerate(seq):
-            if s[0] not in ("ref", "refd"):
+            if s[0] not in ("ref", "refd", "reft"):
                 continue
             p = paras.get(f"P{i}")
             if p is None:
@@ -247,7 +257,7 @@ def evaluate(seq, sort, trans, text, doc, warn, front_end):
         # structure
         ms = model_structure(seq, sort, trans, num, defs)
         os_ = structure(doc)
-        fn_only = all(t[0] in ("fn", "tr") for t in os_) or not any(s[0] in ("ref", "refd") or s[2] in "ql" for s in seq)
+        fn_only = all(t[0] in ("fn", "tr") for t in os_) or not any(s[0] in ("ref", "refd", "refx", "reft") or s[2] in "ql" for s in seq)
         if sort and set(onum) == set(num):
             # labels of equal numeric value ('02' and an automatic '2') may come in either order
             def tie_norm(lst):
@@ -325,5 +335,5 @@ class SphinxFootnoteSystem(System):
 
 def systems(tier):
     if tier == "quick":
-        return [FootnoteSystem(tier, "arrangements", list(range(13)) + [16, 17, 19, 20, 21, 22, 23, 24, 25, 26, 27], 3), FootnoteSystem(tier, "arrangements-deep", SYM_SMALL, 4), SphinxFootnoteSystem(tier)]
+        return [FootnoteSystem(tier, "arrangements", list(range(13)) + [16, 17, 19, 20], 3), FootnoteSystem(tier, "arrangements-wide", list(range(len(SYM))), 2), FootnoteSystem(tier, "arrangements-deep", SYM_SMALL, 4), SphinxFootnoteSystem(tier)]
     return [FootnoteSystem(tier, "arrangements", list(range(len(SYM))), 4), FootnoteSystem(tier, "arrangements-deep", SYM_SMALL, 6), SphinxFootnoteSystem(tier)]
